@@ -122,7 +122,12 @@ def _run_knockout(args) -> Dict:
         guard_rules()
         repo = Repo(root, overrides={ko.rel: new})
         ctx = Ctx(repo, pid, tier, 0)
-        mod.run(ctx)
+        try:
+            mod.run(ctx)
+        except AnalysisError as e_run:
+            if not hasattr(ctx, "analysis_errors"):
+                ctx.analysis_errors = []
+            ctx.analysis_errors.append(str(e_run))
         fired = [f for f in ctx.findings if f.rule == ko.rule and (ko.expect in f.key or ko.expect in f.message)]
         if fired:
             return {"name": ko.name, "status": "fired", "rule": ko.rule, "finding": fired[0].key[:200]}
@@ -194,7 +199,13 @@ def main(argv: Optional[List[str]] = None) -> int:
         mod = load_prop(pid)
         repo = Repo(args.repo)
         ctx = Ctx(repo, pid, args.tier, seed)
-        mod.run(ctx)
+        try:
+            mod.run(ctx)
+        except AnalysisError as e_run:
+            # raised by an inline clause of run() itself (not a guarded rule_*): the rules that already ran keep their findings
+            if not hasattr(ctx, "analysis_errors"):
+                ctx.analysis_errors = []
+            ctx.analysis_errors.append(str(e_run))
         errs = getattr(ctx, "analysis_errors", [])
         if not ctx.findings:
             if errs:
